@@ -412,6 +412,15 @@ theorem C01_tee_transparent (C : List Feature) (O : Oracle) (hc : ∀ tr, O.canc
   let ⟨m, h, _⟩ := tee_simulation C O hc (init st0 script picks) rfl rfl n
   ⟨m, h⟩
 
+/-- **a voluntary feature does not end the list**: in every reachable trace, the event after a
+successful, non-restarting negotiation of an entry the list marked voluntary (initiator, not
+forced) is another `Negotiate` call — the selection loop goes on with the same list; it is never a
+read of the connection (a new features list, a header). Together with
+`C01_voluntary_first_trace` this is what a cache that records the list-level `req` flag instead
+of the feature's own (seeded change C01-6) breaks. -/
+theorem C01_voluntary_stays_in_list {c : Conf} (h : Reach C O st0 script picks c) : StayOK c.tr :=
+  (invY_reach h).ok
+
 /-! ### negotiation ends -/
 
 /-- **termination**: for every configuration, callback behaviour, fault pattern, peer script
